@@ -1,6 +1,6 @@
 /-
 Shared by the VCF and BCF round-trip proofs (Props/C12B.lean): the header text written by `headerText` parses back to the
-sample names, the contig dictionary and the string dictionary [PASS, GT], leaving the lines that follow untouched.
+sample names, the contig dictionary (no gaps: the encoder writes no `IDX`) and the string dictionary [PASS, GT], leaving the lines that follow untouched.
 -/
 import SfsModel.Spec.Container
 namespace Sfs
@@ -186,9 +186,32 @@ theorem mapM_asciiString_strBytes (cols : List String) (h : ∀ c ∈ cols, asci
   | cons c cs ih =>
     simp [List.mapM_cons, h c (by simp), ih (fun c' hc' => h c' (by simp [hc']))]
 
-theorem go_contigLine (c : String) (hc : WfContig c) (fuel : Nat) (ls : List (List Nat)) (acc strings : List String) :
+/-- a body without a comma carries no `,IDX=` attribute -/
+theorem splitIdx_of_no_comma (body : List Nat) (h : 44 ∉ body) : splitIdx body = (none, body) := by
+  unfold splitIdx
+  have e : strBytes ",IDX=" = [44, 73, 68, 88, 61] := by decide
+  simp only [e]
+  split
+  · rename_i hc
+    exfalso
+    simp only [Bool.and_eq_true] at hc
+    have hp := List.isPrefixOf_iff_prefix.1 hc.2
+    have hm : 44 ∈ (List.take (body.length -
+        (List.takeWhile (fun b => decide (48 ≤ b ∧ b ≤ 57)) body.reverse).reverse.length) body).reverse :=
+      hp.subset (by simp)
+    exact h (List.mem_of_mem_take (List.mem_reverse.1 hm))
+  · rfl
+
+theorem lineIdx_of_no_comma (l : List Nat) (h : 44 ∉ l) : lineIdx l = none := by
+  unfold lineIdx
+  split
+  · rw [splitIdx_of_no_comma _ (fun hm => h (List.dropLast_subset _ hm))]
+  · rfl
+
+theorem go_contigLine (c : String) (hc : WfContig c) (fuel : Nat) (ls : List (List Nat)) (acc strings : List (Option String))
+    (hnew : some c ∉ acc) :
     parseVcfHeaderLines.go (fuel + 1) (contigLine c :: ls) acc strings =
-      parseVcfHeaderLines.go fuel ls (acc ++ [c]) strings := by
+      parseVcfHeaderLines.go fuel ls (acc ++ [some c]) strings := by
   have hno : ∀ b ∈ strBytes c, b ≠ 61 ∧ b ≠ 44 ∧ b ≠ 62 := by
     intro b hb
     have := wfContig_bytes hc hb
@@ -217,26 +240,42 @@ theorem go_contigLine (c : String) (hc : WfContig c) (fuel : Nat) (ls : List (Li
       have := hno b hb
       simp [this.2.1, this.2.2])]
     simp
+  have h4 : lineIdx (contigLine c) = none := by
+    apply lineIdx_of_no_comma
+    intro hm
+    simp only [contigLine, List.mem_append, List.mem_singleton] at hm
+    rcases hm with (hm | hm) | hm
+    · rw [e0] at hm; simp at hm
+    · exact (hno _ hm).2.1 rfl
+    · omega
+  have h5 : dictInsert acc c none = some (acc ++ [some c]) := by
+    simp [dictInsert, hnew]
   rw [parseVcfHeaderLines.go.eq_3]
-  simp only [h1, h2, h3, wfContig_ascii hc]
-  simp
+  simp only [h1, h4, Option.isSome_none, Bool.false_eq_true, if_false, h2, h3, wfContig_ascii hc]
+  simp [h5]
 
 
-theorem go_contigLines (cs : List String) (hcs : ∀ c ∈ cs, WfContig c) (f : Nat) (tail : List (List Nat))
-    (acc strings : List String) :
+theorem go_contigLines (cs : List String) (hcs : ∀ c ∈ cs, WfContig c) (hnd : cs.Nodup) (f : Nat) (tail : List (List Nat))
+    (acc strings : List (Option String)) (hacc : ∀ c ∈ cs, some c ∉ acc) :
     parseVcfHeaderLines.go (cs.length + f) (cs.map contigLine ++ tail) acc strings =
-      parseVcfHeaderLines.go f tail (acc ++ cs) strings := by
+      parseVcfHeaderLines.go f tail (acc ++ cs.map some) strings := by
   induction cs generalizing acc with
   | nil => simp
   | cons c cs ih =>
     have e : (c :: cs).length + f = (cs.length + f) + 1 := by simp; omega
-    rw [e, List.map_cons, List.cons_append, go_contigLine c (hcs c (by simp)),
-      ih (fun c' hc' => hcs c' (by simp [hc']))]
-    simp
+    have hnd' := List.nodup_cons.1 hnd
+    rw [e, List.map_cons, List.cons_append, go_contigLine c (hcs c (by simp)) _ _ _ _ (hacc c (by simp)),
+      ih (fun c' hc' => hcs c' (by simp [hc'])) hnd'.2]
+    · simp
+    · intro c' hc' hm
+      rcases List.mem_append.1 hm with hm | hm
+      · exact hacc c' (by simp [hc']) hm
+      · simp only [List.mem_singleton, Option.some.injEq] at hm
+        exact hnd'.1 (hm ▸ hc')
 
-theorem go_formatLine (fuel : Nat) (ls : List (List Nat)) (contigs : List String) :
-    parseVcfHeaderLines.go (fuel + 1) (formatLine :: ls) contigs ["PASS"] =
-      parseVcfHeaderLines.go fuel ls contigs ["PASS", "GT"] := by
+theorem go_formatLine (fuel : Nat) (ls : List (List Nat)) (contigs : List (Option String)) :
+    parseVcfHeaderLines.go (fuel + 1) (formatLine :: ls) contigs [some "PASS"] =
+      parseVcfHeaderLines.go fuel ls contigs [some "PASS", some "GT"] := by
   have h1 : (strBytes "##").isPrefixOf formatLine = true := by decide
   have h2 : hasInfix (strBytes "IDX=") formatLine = false := by decide
   have h3 : metaId "contig" formatLine = none := by decide
@@ -245,13 +284,15 @@ theorem go_formatLine (fuel : Nat) (ls : List (List Nat)) (contigs : List String
   have h6 : metaId "FORMAT" formatLine = some [71, 84] := by decide
   have h7 : asciiString [71, 84] = some "GT" := by decide
   have h8 : metaLineOk formatLine = true := by decide
+  have h9 : lineIdx formatLine = none := by decide
+  have h10 : dictInsert [some "PASS"] "GT" none = some [some "PASS", some "GT"] := by decide
   rw [parseVcfHeaderLines.go.eq_3]
-  simp only [h1, h2, h3, h4, h5, h6]
-  simp [h7, h8]
+  simp only [h1, h9, Option.isSome_none, Bool.false_eq_true, if_false, h2, h3, h4, h5, h6]
+  simp [h7, h8, h10]
 
 
 theorem go_chromLine (cols : List String) (hc : cols ≠ []) (hcw : ∀ c ∈ cols, WfName c) (hnd : cols.Nodup) (fuel : Nat)
-    (ls : List (List Nat)) (contigs strings : List String) :
+    (ls : List (List Nat)) (contigs strings : List (Option String)) :
     parseVcfHeaderLines.go (fuel + 1) (chromLine cols :: ls) contigs strings =
       some (⟨cols, contigs, strings⟩, ls) := by
   have e0 : chromLinePrefix = 35 :: 67 :: chromLinePrefix.drop 2 := by decide
@@ -280,17 +321,19 @@ theorem go_chromLine (cols : List String) (hc : cols ≠ []) (hcw : ∀ c ∈ co
   simp [hnd]
 
 theorem parseVcfHeaderLines_headerLines (cols contigs : List String) (hc : cols ≠ []) (hcw : ∀ c ∈ cols, WfName c)
-    (hnd : cols.Nodup) (hg : ∀ c ∈ contigs, WfContig c) (rest : List (List Nat)) :
-    parseVcfHeaderLines (headerLines cols contigs ++ rest) = some (⟨cols, contigs, ["PASS", "GT"]⟩, rest) := by
+    (hnd : cols.Nodup) (hg : ∀ c ∈ contigs, WfContig c) (hgn : contigs.Nodup) (rest : List (List Nat)) :
+    parseVcfHeaderLines (headerLines cols contigs ++ rest) =
+      some (⟨cols, contigs.map some, [some "PASS", some "GT"]⟩, rest) := by
   have h0 : (strBytes "##fileformat=VCFv4.").isPrefixOf (strBytes "##fileformat=VCFv4.3") = true := by decide
   have hl : (contigs.map contigLine ++ formatLine :: chromLine cols :: rest).length + 1 =
       contigs.length + (rest.length + 1 + 1 + 1) := by
     simp; omega
   unfold parseVcfHeaderLines headerLines
   simp only [List.cons_append, h0, List.append_assoc, List.nil_append]
-  rw [hl, go_contigLines contigs hg]
+  rw [hl, go_contigLines contigs hg hgn _ _ _ _ (by simp)]
   rw [go_formatLine, go_chromLine cols hc hcw hnd]
   simp
+  decide
 
 theorem mem_joinTab {ls : List (List Nat)} {b : Nat} (h : b ∈ joinTab ls) : b = 9 ∨ ∃ l ∈ ls, b ∈ l := by
   induction ls with
@@ -345,12 +388,12 @@ theorem splitLines_headerText (cols contigs : List String) (hcw : ∀ c ∈ cols
 
 /-- `headerText` ends with a newline, so its lines are exactly its `\n`-terminated lines and whatever follows starts a new line. -/
 theorem parseVcfHeaderLines_headerText (cols contigs : List String) (hc : cols ≠ []) (hcw : ∀ c ∈ cols, WfName c)
-    (hnd : cols.Nodup) (hg : ∀ c ∈ contigs, WfContig c) (rest : List (List Nat)) :
+    (hnd : cols.Nodup) (hg : ∀ c ∈ contigs, WfContig c) (hgn : contigs.Nodup) (rest : List (List Nat)) :
     parseVcfHeaderLines (splitLines (headerText cols contigs) ++ rest) =
-      some (⟨cols, contigs, ["PASS", "GT"]⟩, rest) := by
+      some (⟨cols, contigs.map some, [some "PASS", some "GT"]⟩, rest) := by
   have h := splitLines_headerText cols contigs hcw hg []
   rw [List.append_nil, splitLines_nil, List.append_nil] at h
   rw [h]
-  exact parseVcfHeaderLines_headerLines cols contigs hc hcw hnd hg rest
+  exact parseVcfHeaderLines_headerLines cols contigs hc hcw hnd hg hgn rest
 
 end Sfs
